@@ -13,7 +13,9 @@ if args and args[0] == '--tier':
 for sid in args:
     d = f'/verif/seeded/{sid}'
     meta = json.load(open(f'{d}/meta.json'))
-    pid = meta['property']
+    pid = meta.get('run_check', meta['property'])   # a few seeds break a lifecycle aspect that another property's check owns
+    if meta.get('obsolete'):
+        print(sid, 'obsolete, skipped'); continue
     wt = f'/tmp/seedrun-{sid}'
     sh(f'git -C /repo worktree remove --force {wt}')
     sh(f'git -C /repo worktree add --detach {wt} HEAD')
